@@ -117,7 +117,7 @@ structure Writer where
 structure Http where
   cookie : Nat
   head : Nat               -- `H->req_head`
-  conn : Nat               -- `H->connect_cookie`
+  conn : Option Nat        -- `H->connect_cookie`
   deriving DecidableEq, Repr
 
 structure World where
@@ -436,8 +436,9 @@ def netbufReadWait (w : World) (rid len : Nat) : Rc × World :=
                | (none, w1) => (none, w1)
                | (some nb, w1) =>
                  -- Free old buffer and use new buffer.
-                 (some { r with buf := nb, buflen := NetbufRead.newBuflen r.buflen len,
-                                datalen := r.datalen - r.bufpos, bufpos := 0 }, release w1 r.buf)
+                 let r1 := { r with buf := nb, buflen := NetbufRead.newBuflen r.buflen len,
+                                    datalen := r.datalen - r.bufpos, bufpos := 0 }
+                 (some r1, setReader (release w1 r.buf) r1)
              else (some r, w)) with
       | (none, w1) => (.fail, w1)
       | (some r1, w1) =>
@@ -445,9 +446,10 @@ def netbufReadWait (w : World) (rid len : Nat) : Rc × World :=
         let r2 := if r1.buflen - r1.bufpos < len then { r1 with datalen := r1.datalen - r1.bufpos, bufpos := 0 } else r1
         -- Read data into the buffer.
         let r3 := { r2 with waitlen := len }
-        match networkRead w1 r3.fd with
-        | (some c, w2) => (.ok, setReader w2 { r3 with readCookie := some c })
-        | (none, w2) => (.fail, setReader w2 r3)
+        let w2 := setReader w1 r3
+        match networkRead w2 r3.fd with
+        | (some c, w3) => (.ok, setReader w3 { r3 with readCookie := some c })
+        | (none, w3) => (.fail, w3)
 
 /-- `netbuf_read_wait_cancel(R)` -/
 def netbufReadWaitCancel (w : World) (rid : Nat) : Option World :=
@@ -529,14 +531,15 @@ def poke (w : World) (x : Writer) : Rc × World :=
   if x.failed then (.ok, setWriter w x) else
   -- Discard any empty buffers; there is nothing to write from them.
   let (dropped, rest) := splitEmpty x.queue
-  let w1 := releaseBufs w dropped
+  let x1 := { x with queue := rest }
+  let w1 := setWriter (releaseBufs w dropped) x1
   match rest with
-  | [] => (.ok, setWriter w1 { x with queue := [] })
+  | [] => (.ok, w1)
   | wb :: rest' =>
     -- Start writing a buffer.
     match networkWrite w1 x.fd with
-    | (some c, w2) => (.ok, setWriter w2 { x with curr := some (wb, c), queue := rest' })
-    | (none, w2) => (.fail, setWriter w2 { x with queue := wb :: rest' })
+    | (some c, w2) => (.ok, setWriter w2 { x1 with curr := some (wb, c), queue := rest' })
+    | (none, w2) => (.fail, w2)
 
 /-- `netbuf_write_consume(W, len)` -/
 def netbufWriteConsume (w : World) (wid len : Nat) : Rc × World :=
@@ -589,10 +592,14 @@ def httpRequest (w : World) (addrs : List AddrOutcome) (headlen s : Nat) : Optio
     match alloc w1 .httpHead (headlen + 1) with
     | (none, w2) => (none, release w2 h)                                            -- err1: free(H)
     | (some hd, w2) =>
+      let w2 := { w2 with https := ⟨h, hd, none⟩ :: w2.https }
       -- Connect to the target host.
       match networkConnect w2 addrs none s with
-      | (some c, w3) => (some h, { w3 with https := ⟨h, hd, c⟩ :: w3.https })
-      | (none, w3) => (none, release (release w3 hd) h)                             -- err2: free(req_head); err1: free(H)
+      | (some c, w3) =>
+        (some h, { w3 with https := w3.https.map (fun x => if x.cookie == h then { x with conn := some c } else x) })
+      | (none, w3) =>                                                               -- err2: free(req_head); err1: free(H)
+        let w4 := release (release w3 hd) h
+        (none, { w4 with https := w4.https.filter (·.cookie != h) })
 
 /-- `http_request_cancel(cookie)` of a request that is still connecting (`W`, `R`, `ssl`, `sslhost`,
 `res_head`, `res.headers`, `res.body` are NULL; `s == -1`) -/
@@ -600,7 +607,10 @@ def httpRequestCancel (w : World) (h : Nat) : Option World :=
   match w.https.find? (·.cookie == h) with
   | none => none
   | some x =>
-    match networkConnectCancel w x.conn with
+    -- Stop connecting if we're in the process of doing so.
+    match (match x.conn with
+           | some c => networkConnectCancel w c
+           | none => some w) with
     | none => none
     | some w1 =>
       let w2 := release (release w1 x.head) x.cookie
@@ -637,7 +647,7 @@ inductive Op where
 /-- is this read cookie the one a buffered reader is waiting on (then only the reader may cancel it)? -/
 def readOwned (w : World) (c : Nat) : Bool := w.readers.any (·.readCookie == some c)
 def writeOwned (w : World) (c : Nat) : Bool := w.writers.any (fun x => (x.curr.map (·.2)) == some c)
-def connOwned (w : World) (c : Nat) : Bool := w.https.any (·.conn == c)
+def connOwned (w : World) (c : Nat) : Bool := w.https.any (·.conn == some c)
 
 /-- a call outside the usage contract (`none`) is not made -/
 def orSame (w : World) : Option World → World
